@@ -11,11 +11,11 @@ BOUNDED = {
     "C02": "end-to-end composition against Python list indexing (the composition of the proved pieces is a paper argument)",
     "C03": "end-to-end assignment against list assignment",
     "C04": "numpy's result-dtype table, dtype matrix",
-    "C05": "`argmax/argmin` (`_arg_extremum`), `mean`, dtype matrix",
+    "C05": "`mean`, dtype matrix",
     "C06": "derived-vs-fresh comparison under every probe (representation independence end to end)",
     "C07": "`sort`, `unique`, `diff` values end to end; float accumulate is the known finding",
     "C08": "`concatenate(axis=1)`, `_as_padded_matrix`, `subset`",
-    "C09": "column-sum values, `mean(axis=0)`",
+    "C09": "float / bool column sums, `mean(axis=0)`",
     "C10": "differential histories (the history relation itself)",
     "C11": "constructor (bucket build), histories against a dict",
     "C12": "totals end to end against `collections.Counter`",
